@@ -15,6 +15,7 @@ package resolver
 //@ func (DIDKeyResolver).baseUrl
 //@   prop C18 C19
 //@   safety
+//@   modifies nothing
 //@   requires doc != nil
 //@   loop 1 invariant true
 
@@ -26,6 +27,12 @@ package resolver
 //@ func (DIDResolver).Resolve
 //@   trusted
 //@   benign
+//@   ensures isNilIface(result.2) ==> result.0 != nil
+//@   ensures isNilIface(result.2) ==> (forall k int :: 0 <= k && k < len(result.0.Authentication) ==> result.0.Authentication[k].VerificationMethod != nil)
+//@        && (forall k int :: 0 <= k && k < len(result.0.AssertionMethod) ==> result.0.AssertionMethod[k].VerificationMethod != nil)
+//@        && (forall k int :: 0 <= k && k < len(result.0.KeyAgreement) ==> result.0.KeyAgreement[k].VerificationMethod != nil)
+//@        && (forall k int :: 0 <= k && k < len(result.0.CapabilityInvocation) ==> result.0.CapabilityInvocation[k].VerificationMethod != nil)
+//@        && (forall k int :: 0 <= k && k < len(result.0.CapabilityDelegation) ==> result.0.CapabilityDelegation[k].VerificationMethod != nil)
 
 // The resolver registered for the DID's own method decides, on exactly this DID and metadata.
 //@ func (*DIDResolverRouter).Resolve
@@ -43,3 +50,54 @@ package resolver
 //@   call (DIDResolver).Resolve #1 requires [in-chain-order-for-this-did] same(arg(1), id) && arg(0) == c.Resolvers[$i-1]
 //@   ensures [first-answer-is-final] isNilIface(result.2) ==> did(call (DIDResolver).Resolve #1) && isNilIface(ret(call (DIDResolver).Resolve #1).2) && result.0 == ret(call (DIDResolver).Resolve #1).0
 //@   ensures [other-errors-are-final] did(call (DIDResolver).Resolve #1) && !isNilIface(ret(call (DIDResolver).Resolve #1).2) && ret(call errors.Is #1) == false ==> !isNilIface(result.2)
+
+// ---- C19 / C17: key resolution over resolved (possibly remote, unvalidated) DID documents ----
+// go-did's PublicKey() dereferences the absent key of a JsonWebKey2020 method without publicKeyJwk
+// (its summary in /verif/contracts/external carries that as a precondition): publicKeyOf is the guard.
+//@ func publicKeyOf
+//@   prop C19 C17
+//@   safety
+//@   nullable method
+//@   assume-benign
+//@   ensures [method-without-key-is-refused] method == nil || (method.Type == ssi.JsonWebKey2020 && method.PublicKeyJwk == nil) ==> !isNilIface(result.1)
+//@   ensures [key-of-that-method] isNilIface(result.1) ==> did(call (did.VerificationMethod).PublicKey #1) && same(arg(call (did.VerificationMethod).PublicKey #1, 0), *method)
+//@        && result.0 == ret(call (did.VerificationMethod).PublicKey #1).0 && isNilIface(ret(call (did.VerificationMethod).PublicKey #1).1)
+
+//@ func resolveRelationships
+//@   prop C19 C17
+//@   safety
+//@   requires doc != nil
+//@   modifies nothing
+//@   ensures [relationship-asked-for] isNilIface(result.1) ==>
+//@        (relationType == Authentication && result.0 == doc.Authentication) || (relationType == AssertionMethod && result.0 == doc.AssertionMethod)
+//@     || (relationType == KeyAgreement && result.0 == doc.KeyAgreement) || (relationType == CapabilityInvocation && result.0 == doc.CapabilityInvocation)
+//@     || (relationType == CapabilityDelegation && result.0 == doc.CapabilityDelegation)
+
+//@ func GetDIDFromURL
+//@   trusted
+//@   benign
+//@ func (did.DIDURL).String
+//@   trusted
+//@   pure
+
+// Unmarshalling resolves every relationship to a method (go-did fails otherwise): relationship entries
+// of a resolved document carry a non-nil method. Stated as an assumption on Resolve's result.
+//@ func (DIDKeyResolver).ResolveKeyByID
+//@   prop C19 C17
+//@   safety
+//@   requires !isNilIface(r.Resolver)
+//@   nullable metadata
+//@   loop 1 invariant forall k int :: 0 <= k && k < len(relationships) ==> relationships[k].VerificationMethod != nil
+//@   call publicKeyOf #* requires [key-with-the-requested-id-from-the-requested-relationship] isNilIface(ret(call (DIDResolver).Resolve #1).2)
+//@        && isNilIface(ret(call resolveRelationships #1).1) && arg(call resolveRelationships #1, 0) == ret(call (DIDResolver).Resolve #1).0 && arg(call resolveRelationships #1, 1) == relationType
+//@        && arg(call (DIDResolver).Resolve #1, 2) == metadata && arg(0) == rel.VerificationMethod
+//@   ensures [key-only-from-the-resolved-document] isNilIface(result.1) ==> (did(call publicKeyOf #1) && result.0 == ret(call publicKeyOf #1).0) || (did(call publicKeyOf #2) && result.0 == ret(call publicKeyOf #2).0)
+
+//@ func (DIDKeyResolver).ResolveKey
+//@   prop C19 C17
+//@   safety
+//@   requires !isNilIface(r.Resolver)
+//@   nullable validAt
+//@   ensures [first-key-of-the-requested-relationship] isNilIface(result.2) ==> did(call publicKeyOf #1) && result.1 == ret(call publicKeyOf #1).0 && isNilIface(ret(call publicKeyOf #1).1)
+//@        && arg(call publicKeyOf #1, 0) == ret(call resolveRelationships #1).0[0].VerificationMethod && arg(call resolveRelationships #1, 1) == relationType
+//@        && arg(call resolveRelationships #1, 0) == ret(call (DIDResolver).Resolve #1).0 && same(arg(call (DIDResolver).Resolve #1, 1), id)
